@@ -106,6 +106,7 @@ const simOpYieldCap = 4 * maxBaselineYields
 // ---- planning ----
 
 type Tier struct {
+	HotRounds  int            // extra focused rounds for entries that executed a hot site in the probe step
 	Many       map[string]int // rounds of many-task (9-24 tasks) focused runs per family
 	PairRounds int            // rounds over all pairs of "sec" entries
 	Extra      map[string]int // additional focused rounds for small families that the property names explicitly
@@ -120,8 +121,8 @@ type Tier struct {
 }
 
 var Tiers = map[string]Tier{
-	"quick":    {Name: "quick", Many: map[string]int{"sec": 2, "roundtrip": 1, "hist": 1}, PairRounds: 1, Extra: map[string]int{"sec": 12, "roundtrip": 8, "hist": 4, "fn": 4, "chain": 2}, Rounds: 1, Reps: 6, MaxTasks: 8, Faults: true, ChunkSize: 1, NShared: 24, NRecycle: 24},
-	"thorough": {Name: "thorough", Many: map[string]int{"sec": 12, "roundtrip": 4, "hist": 2, "fn": 1, "accessors": 1}, PairRounds: 6, Extra: map[string]int{"sec": 120, "roundtrip": 40, "hist": 20, "fn": 8, "accessors": 4, "chain": 8}, Rounds: 4, Reps: 8, MaxTasks: 64, Faults: true, ChunkSize: 1, NShared: 96, NRecycle: 96},
+	"quick":    {Name: "quick", HotRounds: 6, Many: map[string]int{"sec": 2, "roundtrip": 1, "hist": 1}, PairRounds: 1, Extra: map[string]int{"sec": 12, "roundtrip": 8, "hist": 4, "fn": 4, "chain": 2}, Rounds: 1, Reps: 6, MaxTasks: 8, Faults: true, ChunkSize: 1, NShared: 24, NRecycle: 24},
+	"thorough": {Name: "thorough", HotRounds: 24, Many: map[string]int{"sec": 12, "roundtrip": 4, "hist": 2, "fn": 1, "accessors": 1}, PairRounds: 6, Extra: map[string]int{"sec": 120, "roundtrip": 40, "hist": 20, "fn": 8, "accessors": 4, "chain": 8}, Rounds: 4, Reps: 8, MaxTasks: 64, Faults: true, ChunkSize: 1, NShared: 96, NRecycle: 96},
 }
 
 // NumFocused is the number of focused runs of a tier (they come first).
@@ -215,6 +216,15 @@ func focusList(t Tier) []int {
 				if Cat.Entries[i].Fam == fam {
 					l = append(l, i)
 				}
+			}
+		}
+	}
+	// entries that reach hidden shared state (package-level variables, sync, atomics)
+	// get more schedules: that is where check-then-act windows and torn pairs live
+	for r := 0; r < t.HotRounds; r++ {
+		for i := range Cat.Entries {
+			if i < len(Cat.Hot) && Cat.Hot[i] && Cat.Entries[i].Fam != "sec" {
+				l = append(l, i)
 			}
 		}
 	}
@@ -314,6 +324,17 @@ func PlanRun(seed, index uint64, tierName string) *Plan {
 		reps := t.Reps
 		if many {
 			reps = 2
+			if r.Bool() {
+				sd.pShare = 0 // all arguments distinct: many values meet in small tables
+				if fl[index]-manyBase < len(Cat.Cost) {
+					if n := 40000 / (Cat.Cost[fl[index]-manyBase] + 1); n > reps {
+						reps = n
+					}
+				}
+				if reps > 6 {
+					reps = 6
+				}
+			}
 		} else if fl[index] >= pairBase {
 			reps = t.Reps
 		} else if fl[index] < len(Cat.Cost) && Cat.Cost[fl[index]] > 0 {
@@ -927,17 +948,20 @@ func (x *execution) compare() {
 func ProbeCosts() {
 	c := Cat
 	c.Cost = make([]int, len(c.Entries))
+	c.Hot = make([]bool, len(c.Entries))
 	vsimrt.SetCounting(true)
 	defer vsimrt.SetCounting(false)
 	for i, e := range c.Entries {
 		total := int64(0)
-		for k := uint64(0); k < 3; k++ {
+		vsimrt.ResetBase()
+		for k := uint64(0); k < 6; k++ {
 			e.Seed = 0x9e3779b97f4a7c15 * (k + 1)
 			in := c.Build(e, nil, 0)
 			runInst(in)
 			total += in.yields
 		}
-		c.Cost[i] = int(total/3) + 1
+		c.Cost[i] = int(total/6) + 1
+		c.Hot[i] = vsimrt.BaseHit(siteFlags, vsimrt.FlagHot)
 	}
 }
 
